@@ -45,14 +45,15 @@ Theorem unhealthy_leaves_running : forall c l o s1,
 Proof. exact running_only_live_proof. Qed.
 Print Assumptions unhealthy_leaves_running.
 
-(* ... so a deregistration of a member stops the use of the assembly at once ... *)
+(* ... so a deregistration of a member stops the use of the assembly at once: the job is Paused, or - when enough live
+   nodes are registered and the next assembly is taken in the same evaluation - already Starting the next one ... *)
 Theorem deregistered_operator_pauses : forall c l n,
-  stat (exec c l) = Running -> In n (a_ops (exec c l)) -> stat (fst (step c (exec c l) (ODeregOp n))) = Paused.
+  stat (exec c l) = Running -> In n (a_ops (exec c l)) -> stat (fst (step c (exec c l) (ODeregOp n))) = Paused \/ stat (fst (step c (exec c l) (ODeregOp n))) = Starting.
 Proof. exact deregistered_operator_pauses_proof. Qed.
 Print Assumptions deregistered_operator_pauses.
 
 Theorem deregistered_runner_pauses : forall c l n,
-  stat (exec c l) = Running -> In n (a_srs (exec c l)) -> stat (fst (step c (exec c l) (ODeregSr n))) = Paused.
+  stat (exec c l) = Running -> In n (a_srs (exec c l)) -> stat (fst (step c (exec c l) (ODeregSr n))) = Paused \/ stat (fst (step c (exec c l) (ODeregSr n))) = Starting.
 Proof. exact deregistered_runner_pauses_proof. Qed.
 Print Assumptions deregistered_runner_pauses.
 
@@ -61,7 +62,7 @@ Theorem expired_operator_pauses : forall c l n t o s1,
   stat (exec c l) = Running -> In n (a_ops (exec c l)) ->
   hb_get (true, n) (hb (exec c l)) = Some t -> t + deadline c < now (exec c l) ->
   pre c (exec c l) o = Some s1 -> o <> ORegOp n ->
-  stat (fst (step c (exec c l) o)) = Paused.
+  stat (fst (step c (exec c l) o)) = Paused \/ stat (fst (step c (exec c l) o)) = Starting.
 Proof. exact expired_operator_pauses_proof. Qed.
 Print Assumptions expired_operator_pauses.
 
@@ -69,7 +70,7 @@ Theorem expired_runner_pauses : forall c l n t o s1,
   stat (exec c l) = Running -> In n (a_srs (exec c l)) ->
   hb_get (false, n) (hb (exec c l)) = Some t -> t + deadline c < now (exec c l) ->
   pre c (exec c l) o = Some s1 -> o <> ORegSr n ->
-  stat (fst (step c (exec c l) o)) = Paused.
+  stat (fst (step c (exec c l) o)) = Paused \/ stat (fst (step c (exec c l) o)) = Starting.
 Proof. exact expired_runner_pauses_proof. Qed.
 Print Assumptions expired_runner_pauses.
 
@@ -333,4 +334,17 @@ Example choice_example :
     = [[]; []; []; []; []; [MkDep [1; 2] [0; 1] [0; 0] true]] /\
   map o_deps (snd (run (MkCfg 2 5000 current) init [ORegOp 0; ORegOp 1; ORegOp 2; ORegSr 0; OChoose [2; 1] [0; 1]; ORegSr 1]))
     = [[]; []; []; []; []; [MkDep [0; 1] [0; 1] [0; 0] true]].
+Proof. vm_compute. split; reflexivity. Qed.
+
+(* WHEN the next assembly is started after the running one turned unhealthy is free as well: with a choice supplied
+   (OChoose) the evaluation that pauses the job starts the next assembly at once from the standby; without, the job waits
+   for the next membership event (today's code). Both are histories the theorems above cover. *)
+Example eager_reassembly_example :
+  let c := MkCfg 1 5000 current in
+  map (fun b => (o_status b, o_deps b))
+      (snd (run c init [ORegOp 0; ORegOp 1; ORegSr 0; OFin true; OChoose [1] [0]; ODeregOp 0]))
+    = [(0, []); (0, []); (2, [MkDep [0] [0] [0] true]); (3, []); (3, []); (2, [MkDep [1] [0] [0] true])] /\
+  map (fun b => (o_status b, o_deps b))
+      (snd (run c init [ORegOp 0; ORegOp 1; ORegSr 0; OFin true; ODeregOp 0; ORegOp 1]))
+    = [(0, []); (0, []); (2, [MkDep [0] [0] [0] true]); (3, []); (1, []); (2, [MkDep [1] [0] [0] true])].
 Proof. vm_compute. split; reflexivity. Qed.
